@@ -392,3 +392,7 @@ Proof.
 Qed.
 
 End Dec.
+
+(* the documented soft-requirement exemption set: soft solvables that were accepted *)
+Definition exempt (P : problem) (S : list N) : list N :=
+  filter (fun s => memN s S) (pr_soft P).
